@@ -222,8 +222,8 @@ func (x *Exec) frameCheck(st *State, penv *Env) {
 		if cur.Op == "const" && cur.Name == name {
 			continue
 		}
-		if whole[name] {
-			continue
+		if whole[name] || strings.HasPrefix(name, "GW|") {
+			continue // (witness arrays of range rules are local to the function)
 		}
 		s := arrSorts[name]
 		if s == nil {
